@@ -303,4 +303,21 @@ PROPS = {
                  thorough=dict(checks=240, shards=16, budget_s=3400, shrink="3m")),
         ],
     ),
+    "C13": dict(
+        level="exploration",
+        needs_receptor=True,
+        text="Exploration by generated search over concurrent client histories: submit / status / list / cancel / release / force-release / results on in-process, command (real runner processes) and "
+             "remote units, with schedule perturbation (holding a unit's status lock), link cuts and restarts of the work subsystem; a build-tag hook logs every rewrite of every status record under "
+             "the record lock, and the complete write history is checked for stage monotonicity, Succeeded-stays-Succeeded and non-shrinking size; processes of cancelled units, removal after release "
+             "and ID uniqueness are checked from outside (/proc, disk, API).",
+        note="Trusted: hook H2 (verifStatusWrite, tag verif) and the ordering given by the status file lock; /proc for process liveness. Interleavings are sampled; the lock-holding operation makes the "
+             "cancel-versus-completion window reachable.",
+        technique="stateful property-based testing (rapid): generated concurrent command histories with an invariant over the complete (hooked) write history",
+        assumptions=["a command that ignores SIGINT is killed after the 10 s grace period, so 'gone' is judged 25 s after the reply"],
+        parts=[
+            part("lifecycle", "workprops", "TestC13", "C13",
+                 quick=dict(checks=32, shards=8, budget_s=600),
+                 thorough=dict(checks=640, shards=16, budget_s=3400, shrink="3m")),
+        ],
+    ),
 }
